@@ -1093,6 +1093,8 @@ func ruleArity() check.Rule {
 						return nil
 					}
 					pairs := 0
+					covered := map[int]bool{}
+					inPair := map[ast.Node]bool{}
 					ast.Inspect(sc.Lit.Body, func(n ast.Node) bool {
 						be, ok := n.(*ast.BinaryExpr)
 						if !ok || be.Op != token.LAND {
@@ -1108,6 +1110,11 @@ func ruleArity() check.Rule {
 								continue
 							}
 							pairs++
+							inPair[ast.Unparen(pair[0])] = true
+							inPair[ast.Unparen(pair[1])] = true
+							if group[flag] == group[queue] {
+								covered[group[flag]] = true
+							}
 							if group[flag] != group[queue] {
 								bad = true
 								c.Violation(key+"/completion-pairing", be.Pos(), "the completion test pairs the finished-flag %s of one source with the queue %s of another: the output completes when the wrong queue is drained (or never)", flag.Name(), queue.Name())
@@ -1116,6 +1123,38 @@ func ruleArity() check.Rule {
 						return true
 					})
 					c.Inc("zip_completion_pairs", pairs)
+					// the completion test covers every source, and tests a finished-flag (or an emptied queue) only as
+					// one half of its source's pair
+					if pairs > 0 {
+						if ng != k+1 || len(covered) != ng {
+							bad = true
+							c.Violation(key+"/completion-covers-all", sc.Lit.Pos(), "the completion test pairs (finished && queue empty) for %d of %d sources: when one of the others completes with its queue drained the output never completes", len(covered), k+1)
+						}
+						ast.Inspect(sc.Lit.Body, func(n ast.Node) bool {
+							ifs, ok := n.(*ast.IfStmt)
+							if !ok {
+								return true
+							}
+							ast.Inspect(ifs.Cond, func(y ast.Node) bool {
+								switch e := y.(type) {
+								case *ast.Ident:
+									if v, ok := objOf(info, e).(*types.Var); ok && group[v] != 0 && !inPair[e] {
+										if b, isBool := v.Type().Underlying().(*types.Basic); isBool && b.Kind() == types.Bool {
+											bad = true
+											c.Violation(key+"/completion-half", e.Pos(), "the finished-flag %s is tested without `len(queue) == 0` of the same source: the output completes while values of that source are still queued", v.Name())
+										}
+									}
+								case *ast.BinaryExpr:
+									if q := lenZeroOf(e); q != nil && group[q] != 0 && !inPair[e] {
+										bad = true
+										c.Violation(key+"/completion-half", e.Pos(), "`len(%s) == 0` is tested without the finished-flag of the same source: the output completes whenever that queue happens to be empty", q.Name())
+									}
+								}
+								return true
+							})
+							return true
+						})
+					}
 				}
 				if mt[1] == "CombineLatestWith" {
 					// constants used with the status counter
@@ -1280,14 +1319,14 @@ func C05() *check.Property {
 		Title:    "Multi-source operators honour every arrival order of their inputs",
 		Patterns: CorePatterns,
 		Scope:    []string{ro},
-		Rules:    []check.Rule{ruleErrPropagation(), ruleArity(), ruleNoPrematureRelease(), ruleRaceLateLoser(), ruleComposition(), ruleSequentialInnerGuard(), ruleOuterCompleteWaitsInner(), ruleTerminalPropagation(), ruleObservableParamUsed(), ruleQueueFIFO(), rulePublishBeforeEmit(), ruleConsumeFlag(), ruleStateLevel(), ruleSlotGuardAgreement(), ruleAddAfterClose(), ruleTerminalCallAgreement()},
+		Rules:    []check.Rule{ruleErrPropagation(), ruleArity(), ruleNoPrematureRelease(), ruleRaceLateLoser(), ruleComposition(), ruleSequentialInnerGuard(), ruleOuterCompleteWaitsInner(), ruleTerminalPropagation(), ruleObservableParamUsed(), ruleQueueFIFO(), rulePublishBeforeEmit(), ruleConsumeFlag(), ruleStateLevel(), ruleSlotGuardAgreement(), ruleAddAfterClose(), ruleTerminalCallAgreement(), ruleAccessGuarded()},
 		Explanation: "Narrow structural claim. Arrival orders are run-time histories and are NOT decided. Two necessary conditions are: ERR-PROPAGATION — 'an error from any source ends the output at once': for every upstream subscribe site of every operator " +
 			"(multi-source ones included) the observer's error slot reaches an Error notification to the destination, or the operator's definition consumes the error (listed with reasons); partial observers that swallow errors are reported. NO-PREMATURE-RELEASE — 'nothing is lost, completion comes when the definition says': inside a notification slot of one source the other sources are unsubscribed only on paths that also terminate the output. ARITY — the fixed-arity " +
 			"CombineLatestWithK/ZipWithK families subscribe K+1 distinct sources, build K+1-tuples from K+1 distinct variables and (CombineLatest) use only counter constants consistent with K+1 sources.",
 		NotDecided:  "the output assigned to each interleaving (ordering, completion timing, loss/duplication) for merge, concat, combine-latest, zip, race, buffer/window/sample/throttle-when, group-by, flat-map — in particular ZipAll's early outer completion (DESIGN.md section 7) is outside these rules.",
 		Assumptions: []string{"the destination's subscriber closes on the first terminal notification (C01) and its teardown releases the other sources (C03)"},
 		Floors:      map[string]int{"sites_checked": 140, "sites_of_multi_source_operators": 50, "sibling_releases_in_slots": 30, "complete_slots_checked": 120},
-		Controls:    map[string]string{"zz_verif_controls_c05.go": roControl(controlsC05), "zz_verif_controls_c12.go": roControl(controlsC12)},
+		Controls:    map[string]string{"zz_verif_controls_c05.go": roControl(controlsC05), "zz_verif_controls_c12.go": roControl(controlsC12), "zz_verif_controls_access.go": roControl(controlsAccessGuard)},
 	}
 }
 
